@@ -267,6 +267,34 @@ let handle_t = function
       Printf.sprintf "%s %s | %s" id out (String.concat " " (List.rev_map show_call ss.calls))
   | _ -> failwith "bad T line"
 
+
+(* ---------- FT: a Translator over a history of calls ----------
+   FT <id> <json|msgpack|toml|yaml> <call>;<call>;...   call = <1|0>:<doc>,<doc>,...   doc = o<hex> | r<hex> *)
+
+let fmt_of_string = function "json" -> Json | "msgpack" -> Msgpack | "toml" -> Toml | _ -> Yaml
+
+let handle_ft = function
+  | [ id; to_; calls ] ->
+      let parse_doc d =
+        let h = String.sub d 1 (String.length d - 1) in
+        if d.[0] = 'o' then DocOk (bytes_of_hex h) else DocRefused (bytes_of_hex h)
+      in
+      let parse_call c =
+        match String.split_on_char ':' c with
+        | [ ok; ds ] -> { docs = List.map parse_doc (if ds = "" then [] else String.split_on_char ',' ds); input_ok = ok = "1" }
+        | _ -> failwith "bad call"
+      in
+      let cs = if calls = "-" then [] else List.map parse_call (String.split_on_char ';' calls) in
+      let out, vs = translate_history (fmt_of_string to_) cs in
+      let show_v = function
+        | VOk -> "ok"
+        | VErrDoc i -> Printf.sprintf "doc%d" (int_of_nat i)
+        | VErrInput -> "input"
+        | VErrMulti i -> Printf.sprintf "multi%d" (int_of_nat i)
+      in
+      Printf.sprintf "%s %s %s" id (hex_of_bytes out) (String.concat "," (List.map show_v vs))
+  | _ -> failwith "bad FT line"
+
 let () =
   try
     while true do
@@ -277,6 +305,7 @@ let () =
           match f with
           | "H" :: rest -> handle_h rest
           | "MS" :: rest -> handle_ms rest
+          | "FT" :: rest -> handle_ft rest
           | "T" :: rest -> handle_t rest
           | "UD" :: rest -> handle_ud rest
           | "UR" :: rest -> handle_ur rest
